@@ -57,7 +57,8 @@ type ErrPlan struct {
 	NilErr  bool // NewError(code, nil)
 	Details []DetailPlan
 	Meta    http.Header
-	CtxErr  bool // return ctx.Err()
+	CtxErr  bool // wait for the handler's context to finish, return ctx.Err()
+	CtxKind int  // 1 context.Canceled, 2 context.DeadlineExceeded, 3/4 the same wrapped with %w
 }
 
 type DetailPlan struct {
@@ -101,10 +102,11 @@ type CallPlan struct {
 	CProgRcv []COp // receiver task when Split
 	Split    bool
 
-	Deadline   time.Duration // 0: none
-	CancelTask bool          // a canceller task cancels at a scheduler-chosen step
-	YieldOn    [simhttp.NumPoints]bool
-	SlowOn     [simhttp.NumPoints]bool
+	Deadline     time.Duration // 0: none
+	CancelTask   bool          // a canceller task cancels at a scheduler-chosen step
+	CancelBefore bool          // the context is cancelled before the first operation
+	YieldOn      [simhttp.NumPoints]bool
+	SlowOn       [simhttp.NumPoints]bool
 
 	bin map[string][][]byte // original bytes of generated -Bin values
 
